@@ -313,6 +313,7 @@ def finite_refute(c, vc, tier):
     for cand in cands:
         s = z3.Solver()
         s.set("timeout", 10000)
+        s.set("rlimit", 50000000)
         for h in cand.hyps:
             s.add(h)
         for b in bounds:
